@@ -239,8 +239,8 @@ theorem xl_facts {rc : RenderCfg} (hx : XtermLike rc.ti = true) (hd : rc.d = der
 
 /-- **the whole style block of drawCell**, for every `XtermLike` terminal and every style without colours, underline
 and hyperlink (any combination of bold / blink / reverse / dim / italic / strike-through): the emulator's pen becomes
-exactly `penOf rc s`, pen and hyperlink state are known afterwards, nothing else changes.  (The part of `CapsFx.pen` that
-is proved; colours and underline are covered by the per-string lemmas above but their assembly is not.) -/
+exactly `penOf rc s`, pen and hyperlink state are known afterwards, nothing else changes.  (Superseded by
+`xl_setPen_effect` in `LayerBXtermFx.lean`, which covers colours and underline as well; kept as the simple special case.) -/
 theorem xl_setPen_attrs_effect {rw} {rc : RenderCfg} (hx : XtermLike rc.ti = true) (hd : rc.d = derive rc.ti) {t : Term}
     (g : Good rw t) (s : Style) (hf : NoColor s.fg) (hb : NoColor s.bg) (hu : s.ulStyle = 0) (hurl : s.url = "") :
     t.feed (Render.render rc (.setPen s)) = { t with pen := penOf rc s, penKnown := true, linkKnown := true } := by
